@@ -213,7 +213,7 @@ def ring_states(D, exhaustive):
 
 
 class Tally:
-    """One aggregated obligation: counts evaluations, keeps the first counterexample."""
+    """One aggregated obligation: counts evaluations, keeps the simplest counterexample."""
 
     def __init__(self):
         self.n = 0
@@ -252,8 +252,9 @@ def check(ctx, width, depth, dyn):
            'one slot of the ring is sacrificed to tell full from empty: the memory needs at least depth+1 = %d words, '
            'it has %r' % (N, mem.depth))
     ctx.ob('C18.storage', '%s.memory.width[%s]' % (CLS, tag),
-           mem.mem_width == width and all(ir.signals[s].w == width for s in ('self.read_data', 'self.write_data')),
-           mem.loc, 'memory word / read_data / write_data must be %d bits wide (memory %r, read_data %r, write_data %r)' % (
+           all(isinstance(w, int) and w >= width for w in (mem.mem_width, ir.signals['self.read_data'].w,
+                                                             ir.signals['self.write_data'].w)),
+           mem.loc, 'memory word / read_data / write_data must be (at least) %d bits wide (memory %r, read_data %r, write_data %r)' % (
                width, mem.mem_width, ir.signals['self.read_data'].w, ir.signals['self.write_data'].w))
     for r in ('cw', 'kw', 'cr', 'kr'):
         si = ir.signals[role[r]]
@@ -273,7 +274,7 @@ def check(ctx, width, depth, dyn):
     patt = 0xA5A5A5A5A5 & ones
     st_empty, st_full, st_space = Tally(), Tally(), Tally()
     n_states = 0
-    exhaustive = D <= 4
+    exhaustive = D <= 5
     for kr, a, b, c in ring_states(D, exhaustive):
         n_states += 1
         cr, kw, cw = (kr + a) % N, (kr + a + b) % N, (kr + a + b + c) % N
@@ -294,13 +295,12 @@ def check(ctx, width, depth, dyn):
 
             def chk(name, ok, why):
                 dyn[name].check(ok, why, nb)
-            if True:
-                # (b) status equations (for every strobe setting: they must not depend on the strobes)
-                e_, f_, s_ = (mdl.sig(n, env, memo) for n in ('self.empty', 'self.full', 'self.space_available'))
-                st_empty.check(e_ == int(readable == 0), 'empty = %d with %d committed unread entries (%s)' % (e_, readable, desc))
-                st_full.check(f_ == int(held == D), 'full = %d with %d of %d entries held (%s)' % (f_, held, D, desc))
-                st_space.check(s_ == D - held, 'space_available = %d with %d of %d entries held, expected %d (%s)' % (
-                    s_, held, D, D - held, desc))
+            # (b) status equations (under every strobe setting: they must not depend on the strobes)
+            e_, f_, s_ = (mdl.sig(n, env, memo) for n in ('self.empty', 'self.full', 'self.space_available'))
+            st_empty.check(e_ == int(readable == 0), 'empty = %d with %d committed unread entries (%s)' % (e_, readable, desc), nb)
+            st_full.check(f_ == int(held == D), 'full = %d with %d of %d entries held (%s)' % (f_, held, D, desc), nb)
+            st_space.check(s_ == D - held, 'space_available = %d with %d of %d entries held, expected %d (%s)' % (
+                s_, held, D, D - held, desc), nb)
             nxt = mdl.step(env, memo)
             ncw, nkw, ncr, nkr = nxt[CW], nxt[KW], nxt[CR], nxt[KR]
             w_adv = wen and held < D
@@ -328,7 +328,7 @@ def check(ctx, width, depth, dyn):
                 chk('write-port', en_ == 1 and ad_ == cw and da_ == env['self.write_data'], lambda: (
                     'an accepted write must store write_data (%#x) at the current write pointer %d: memory port en=%d '
                     'addr=%d data=%#x (%s)' % (env['self.write_data'], cw, en_, ad_, da_, ins)))
-            chk('write-protect', not en_ or not (dist(ad_) < held) and ad_ <= D, lambda: (
+            chk('write-protect', not (en_ and ad_ <= D and dist(ad_) < held), lambda: (
                 'memory written at slot %d which holds a live entry (%s)' % (ad_, ins)))
             # read side
             if not rds:
@@ -427,6 +427,7 @@ def run(ctx):
             bad_reset.append('width %d depth %d: %s' % (width, depth, inits))
         last = (ir, role, P)
     ir, role, P = last
+    ctx.note('one-step relation evaluated %d times over %d configurations' % (dyn['read-data'].n, len(configs)))
     ctx.ob('C18.reset-state', '%s.pointers.reset' % CLS, not bad_reset, ir.signals[role['cw']].loc,
            'after reset all four pointers must coincide inside the ring (empty, full capacity): %s' % bad_reset)
 
